@@ -26,3 +26,26 @@ def closing_model(ex, thing):
 import contextlib  # noqa: E402
 
 CLASS_MODELS[contextlib.closing] = closing_model
+
+
+def drive(awaitable):
+    """NATIVE harness only (a no-op model symbolically, where the body of an `async def` has already been executed
+    at its call): a recorded `cancel_on_disconnection(coro)` / `create_task(coro)` stub runs the coroutine it was
+    handed up to its first await on something pending, which is then never resumed (the coroutine is dropped without
+    running its `finally` blocks any further than CPython's close() does)."""
+    if awaitable is None or not hasattr(awaitable, 'send'):
+        return None
+    try:
+        awaitable.send(None)
+    except StopIteration:
+        return None
+    try:
+        awaitable.close()
+    except BaseException:  # noqa: BLE001
+        pass
+    return None
+
+
+from .models_calls import NATIVE_MODELS  # noqa: E402
+
+NATIVE_MODELS[drive] = lambda ex, awaitable: None
